@@ -5,6 +5,7 @@ import (
 	"fmt"
 	"os"
 	"path/filepath"
+	"regexp"
 	"runtime/debug"
 	"runtime/pprof"
 	"sort"
@@ -178,16 +179,19 @@ func differ(entries []string) bool {
 
 func errClass(s string) string {
 	for _, k := range []string{"creation lamport time not set", "DFS failed", "lamport clock ordering", "multiple leafs",
-		"merge commit cannot have operations", "jumping too far", "edit time is zero", "panic"} {
+		"merge commit cannot have operations", "jumping too far", "edit time is zero", "does not match the id", "panic"} {
 		if strings.Contains(s, k) {
 			return strings.ReplaceAll(k, " ", "-")
 		}
 	}
-	if len(s) > 40 {
-		s = s[:40]
+	s = hexRun.ReplaceAllString(s, "#") // ids and hashes out of the signature
+	if len(s) > 60 {
+		s = s[:60]
 	}
 	return strings.ReplaceAll(s, " ", "-")
 }
+
+var hexRun = regexp.MustCompile(`[0-9a-f]{7,}`)
 
 func short(ids []string) []string {
 	out := make([]string, len(ids))
@@ -648,7 +652,7 @@ func Worker(args []string) {
 	}
 	scratch := world.ScratchRoot()
 	w := &wk{seed: seed, dir: filepath.Join(scratch, "w")}
-	debug.SetGCPercent(800) // go-git allocates heavily per object read; the heap stays small anyway
+	debug.SetGCPercent(800)                           // go-git allocates heavily per object read; the heap stays small anyway
 	if pf := os.Getenv("VERIF_C03B_PROF"); pf != "" { // development aid: CPU profile of one worker
 		if f, err := os.Create(pf); err == nil {
 			pprof.StartCPUProfile(f)
